@@ -1207,6 +1207,9 @@ func ruleR09k(c *Ctx, r *Report) {
 							return
 						}
 						gs := nonZeroGuards(g, func(v ssa.Value) bool { return canon(v) == sv || v == st.Val })
+						if (len(gs) == 0 || reach(g, nil, edgeSet(gs))[st.Block()]) && validatedByCallee(g, st, sv, nonZeroGuards) {
+							return // checked by a function of the repository that was handed the value and returned no error
+						}
 						if len(gs) == 0 || reach(g, nil, edgeSet(gs))[st.Block()] {
 							allGood = false
 							if os.Getenv("CARLINT_DEBUG") != "" {
@@ -1564,4 +1567,78 @@ func assertionCannotFail(fn *ssa.Function, ta *ssa.TypeAssert) bool {
 		return false
 	}
 	return okv(ta.X, 0)
+}
+
+// validatedByCallee: the stored value was handed to a repository function h before the store, the
+// store is reached only through the "no error" outcome of that call, and h returns no error only
+// behind a comparison that excludes zero for that parameter.
+func validatedByCallee(g *ssa.Function, st *ssa.Store, sv ssa.Value, guardsOf func(*ssa.Function, func(ssa.Value) bool) []Edge) bool {
+	found := false
+	eachInstr(g, func(in ssa.Instruction) {
+		call, ok := in.(*ssa.Call)
+		if !ok || found {
+			return
+		}
+		h := staticTarget(call.Common())
+		if h == nil || h.Blocks == nil || h.Pkg == nil || !isRepoPkg(h.Pkg.Pkg.Path()) {
+			return
+		}
+		res := h.Signature.Results()
+		if res.Len() == 0 || !types.Identical(res.At(res.Len()-1).Type(), types.Universe.Lookup("error").Type()) {
+			return
+		}
+		for i, a := range call.Common().Args {
+			if !(canon(a) == sv || a == st.Val) || i >= len(h.Params) {
+				continue
+			}
+			// h: every return with a nil error lies behind a guard on the parameter
+			p := h.Params[i]
+			gs := guardsOf(h, func(v ssa.Value) bool { return canon(v) == ssa.Value(p) || v == ssa.Value(p) })
+			if len(gs) == 0 {
+				continue
+			}
+			open := reach(h, nil, edgeSet(gs))
+			okH := true
+			eachInstr(h, func(in2 ssa.Instruction) {
+				ret, isRet := in2.(*ssa.Return)
+				if !isRet || len(ret.Results) == 0 {
+					return
+				}
+				if k, isK := ret.Results[len(ret.Results)-1].(*ssa.Const); isK && k.Value == nil && open[ret.Block()] {
+					okH = false
+				}
+			})
+			if !okH {
+				continue
+			}
+			// g: the store lies behind the call's "err == nil" outcome
+			var e ssa.Value = call
+			if res.Len() > 1 {
+				e = extractOf(call, res.Len()-1)
+			}
+			if e == nil || e.Referrers() == nil {
+				continue
+			}
+			for _, ref := range *e.Referrers() {
+				cmp, isCmp := ref.(*ssa.BinOp)
+				if !isCmp || (cmp.Op != token.NEQ && cmp.Op != token.EQL) || cmp.Referrers() == nil {
+					continue
+				}
+				for _, r2 := range *cmp.Referrers() {
+					iff, isIf := r2.(*ssa.If)
+					if !isIf {
+						continue
+					}
+					okSucc := iff.Block().Succs[1]
+					if cmp.Op == token.EQL {
+						okSucc = iff.Block().Succs[0]
+					}
+					if len(okSucc.Preds) == 1 && (okSucc == st.Block() || okSucc.Dominates(st.Block())) {
+						found = true
+					}
+				}
+			}
+		}
+	})
+	return found
 }
